@@ -23,8 +23,12 @@ def e_monitor(line):
     for fld in f[3:]:
         if fld.startswith("probes="):
             for p in [x for x in fld[7:].split(",") if x]:
-                if not p.startswith("ok:"):
+                # "expired": refused with SessionNotFound because the device had marked that session expired
+                if not (p.startswith("ok:") or p.startswith("expired:")):
                     names.append("probe-unanswered")
+        elif fld.startswith("unacked="):
+            if fld[8:] != "0":
+                names.append("message-never-acknowledged")
         elif fld.startswith("tables="):
             if "/p/" in fld or "/d/" in fld:
                 names.append("exchange-not-closed")
